@@ -8,7 +8,7 @@ import z3
 import pyrtl
 from .. import designs, simdrv, sym, concrete
 from ..simdrv import Vars, run_sim, sym_env, CompiledModel, run_compiled
-from ..sym import SymMem, to_bv
+from ..sym import SymMem, SymInt, to_bv
 from . import c04
 
 PROP = 'C02'
@@ -73,6 +73,10 @@ def cases(tier, seed):
         for f in forms:
             out.append(dict(c, K=Kc, form=f, sim='fast'))
             out.append(dict(c, K=Kc, form=f, sim='compiled', init=['zero', 'ones', 'alt'][i % 3]))
+    for i, nm in enumerate(FSNAMES):
+        for role in (('wire', 'reg', 'memrd') if tier != 'quick' else (('wire', 'reg', 'memrd')[i % 3],)):
+            out.append({'fam': 'FSNAMES', 'name': nm, 'role': role, 'K': 2, 'form': 'pre', 'sim': 'fast'})
+            out.append({'fam': 'FSNAMES', 'name': nm, 'role': role, 'K': 2, 'form': 'pre', 'sim': 'compiled', 'init': 'zero'})
     # initial-state rules under a non-zero default_value: explicit zeros (reset_value=0, a 0 in register_value_map) must win
     regd = [dict(c, reset=r) for c in designs.op_cases([1, 3, 65], ops='w+', dests=('reg',)) for r in (None, 0, 1)]
     regd += designs.seq_cases(widths=(3,)) + designs.expr_cases(6 if tier == 'quick' else 30, seed + 77, n=5, maxw=5, nreg=2)
@@ -86,6 +90,31 @@ def cases(tier, seed):
     out.append({'fam': 'HELPER', 'k': 'chelper', 'limbs': 1, 'backend': 'compiled'})
     out.append({'fam': 'HELPER', 'k': 'chelper', 'limbs': 2, 'backend': 'compiled'})
     return out
+
+
+FSNAMES = ['d', 'regs', 'outs', 'mem_ws', 'ins', 'fs_mem0', 'a"b', 'a\\b', 'a\nb', "a'b", 'lambda', 'class', '_fastsim_tmp_0',
+           'uint64_t', 'main', 'tmp', 'x%s', '{x}', 'w0_a', 'insert', 'lookup', 'sim_run_all']
+
+
+def build_fsnames(d):
+    """an internal wire, a register and a memory-port wire carry the given name in turn (names of locals of generated code,
+    keywords, quotes and backslashes, C identifiers the generated C uses itself)"""
+    nm, role = d['name'], d['role']
+    a, c = pyrtl.Input(3, 'a'), pyrtl.Input(3, 'b')
+    w = pyrtl.WireVector(3, nm if role == 'wire' else 'w')
+    w <<= (a + c)[0:3]
+    r = pyrtl.Register(3, nm if role == 'reg' else 'r')
+    r.next <<= w ^ a
+    m = pyrtl.MemBlock(bitwidth=3, addrwidth=2, name='m', asynchronous=True)
+    rd = pyrtl.WireVector(3, nm if role == 'memrd' else 'rd')
+    rd <<= m[a[0:2]]
+    m[c[0:2]] <<= pyrtl.MemBlock.EnabledWrite(w, c[2])
+    o = pyrtl.Output(4, 'o')
+    o <<= rd + r
+    return pyrtl.working_block()
+
+
+designs.register_family('FSNAMES', build_fsnames)
 
 
 def prep(case):
@@ -229,6 +258,10 @@ def compare(ob, block, ra, rb, assume, v, site, K, all_wires, compiled=False, me
                 if len(pa.trace[name]) != K or len(pb.trace[name]) != K:
                     ob.fact('trace-length:%s' % name, False, site + ':trace-length')
                     continue
+                if not all(isinstance(x, (int, SymInt, sym.SymBool)) for x in pb.trace[name]):
+                    ob.fact('traced-value-is-a-number:%s' % name, False, site + ':value-type',
+                            detail='%s traces %r' % (name, [type(x).__name__ for x in pb.trace[name]]))
+                    continue
                 for t in range(K):
                     goals.append(('wire:%s@%d' % (name, t), to_bv(pa.trace[name][t], w.bitwidth + 1) == to_bv(pb.trace[name][t], w.bitwidth + 1),
                                   site + ':value'))
@@ -290,7 +323,7 @@ def replay(cex):
         if name in tb:
             for t in range(K):
                 if ta[name][t] != tb[name][t]:
-                    diffs.append('%s@%d: Simulation=%d %s=%d' % (name, t, ta[name][t], case['sim'], tb[name][t]))
+                    diffs.append('%s@%d: Simulation=%r %s=%r' % (name, t, ta[name][t], case['sim'], tb[name][t]))
     for name, d in ma.items():
         other = mb.get(name, {})
         init = mv.get('mems', {}).get(name, {})
